@@ -60,6 +60,9 @@ def alphabet(tier):
     q += [f"rinv:{m}" for m in (RINV_M if tier == "thorough" else RINV_M[:4] + ["diagonalization"])]
     q += [f"diag:{m}" for m in DIAG_M]
     q += ["svd", "eigh", "eigvalsh", "solve", "logdet", "iql", "inv_quad", "precond", "sample"]
+    # the same query under two values of a setting it reads (the harness sets and restores it around the call): a memo keyed by the
+    # arguments alone would serve the first answer again
+    q += ["pivchol:tight", "pivchol:loose"]
     flips = list(FLIPS) if tier == "thorough" else ["flip:mcs", "flip:fastroot"]
     return q, flips, list(DERIVS)
 
@@ -209,6 +212,16 @@ def observe(op, q, M):
                 obs["precond_logdet"] = ld
             if plt is not None:
                 obs["precond_dense"] = dn(plt)
+    elif kind == "pivchol":
+        saved = env.settings.preconditioner_tolerance.value()
+        env.set_settings({"preconditioner_tolerance": 1e-8 if arg == "tight" else 0.5})
+        try:
+            L = op.pivoted_cholesky(rank=n)
+        finally:
+            env.set_settings({"preconditioner_tolerance": saved})
+        L = dn(L)
+        obs["pc_prod"] = L @ L.mT
+        flags["pc_rank"] = int(L.shape[-1])
     elif q == "sample":
         with NoisePatch("record") as p0:
             out0 = op.zero_mean_mvn_samples(1)
